@@ -17,6 +17,28 @@ CHECKS = {
  "C04": ("exploration", HIST + "; leaked iter_mut/drain guards as injected faults; index-table invariant via the cfg-gated snapshot hook; abort classification of worker processes",
          "No step of any fault-free history may panic or abort; the index tables the unchecked accesses trust are checked after every step; workers run with std's debug precondition checks so an out-of-bounds get_unchecked aborts and is classified. Sampling, not proof.",
          "Trusted: std's ub_checks on get_unchecked (debug-assertions build), the snapshot hook being read-only.", "3,4.C04"),
+
+ "C06": ("exploration", HIST + "; scheduler-chosen interleavings of next/next_back on the sorted iterators (episode scheduling)",
+         "Sorted consumers of clones of every visited state: multiset equals contents and order monotone; the DoublePriorityQueue sorted iterator is advanced from both ends under seeded programs, each yield checked against the extreme of what remains, len before every call. Sampling, not proof.",
+         "Trusted: the oracle's own multiset bookkeeping.", "3,4.C06"),
+ "C08": ("exploration", HIST + "; predicate call logs; scheduler-chosen drop point of the iter_mut guard",
+         "retain/retain_mut predicate logs, kept sets and rewritten priorities, iter_mut prefixes with writes through every yielded reference, pop_if accept/reject with rewrites, each followed by the order oracles. Sampling, not proof.",
+         "Trusted: rule-based predicates are functions of the element only.", "3,4.C08"),
+ "C09": ("exploration", HIST + "; seeded programs of next/next_back/len/size_hint on iter_mut with every yielded reference kept alive (address-distinctness oracle)",
+         "Every yielded (&mut item, &mut priority) is kept alive for the episode; addresses and ids must be pairwise distinct, size reports exact where an exact size is declared, None forever after exhaustion; directly, through &mut queue, rev and take. Sampling, not proof.",
+         "Natively an aliasing duplicate is detected by address equality, not by a memory model.", "3,4.C09"),
+ "C11": ("exploration", HIST + " biased to push_increase/push_decrease with lower/equal/higher offers",
+         "Return value and full contents after every push_increase/push_decrease against the model, plus order oracles. Sampling, not proof.",
+         "Trusted: the reference model.", "3,4.C11"),
+ "C12": ("exploration", HIST + " with item payloads outside Eq/Hash and owned vs borrowed lookups",
+         "Every update passes a key with a fresh payload; stored payloads (first inserted or written through get_mut/peek_*_mut/iter_mut/retain_mut/pop_if) are compared with the model after every step; borrowed and owned lookups must agree. Sampling, not proof.",
+         "Trusted: the reference model.", "3,4.C12"),
+ "C13": ("exploration", HIST + "; seeded programs on iter/into_iter/drain/sorted iterators and std adaptor compositions",
+         "Each element exactly once then None forever, no element from both ends, len and size_hint exact before every call for every type that declares ExactSizeIterator, .len() and .count() of take/skip/zip/peekable/rev/enumerate/step_by/chain compositions under catch_unwind. Sampling, not proof.",
+         "Trusted: std adaptor implementations.", "3,4.C13"),
+ "C16": ("exploration", HIST + "; drain guards dropped or leaked (mem::forget) after scheduler-chosen programs; drop ledger",
+         "After drain() — consumed fully, partially, not at all, or leaked — and after clear the queue must be empty and the history continues against a fresh model with all oracles exact; the drop ledger must balance except for what a guard forgotten by the harness still owns. Sampling, not proof.",
+         "Trusted: the ledger (unique token per value).", "3,4.C16"),
 }
 
 def main():
